@@ -66,10 +66,22 @@ def main():
             a = base
             b = [None, None] + base[2:]
         k = {"floatna": "float"}.get(kind, kind)
+        # layout 4: interleaved ties (first-encountered value completes last), for tie-break sensitive helpers
+        ties_g = [1, 1, 1, 1, 2, 2, 2, 2, 2, 3, 3, 3, 3, 3, 3]
+        ties_i = [1, 2, 2, 1, 7, 5, 3, 3, 7, 9, 8, 6, 8, 6, 9]
+        if k == "bool":
+            ties_v = [bool(v % 2) for v in ties_i]
+        elif k == "int":
+            ties_v = ties_i
+        elif k == "float":
+            ties_v = [v + 0.5 for v in ties_i]
+        else:
+            import datetime as _dt
+            ties_v = [(_dt.date(2020, 1, 1) + _dt.timedelta(days=v)) if k == "date" else _dt.datetime(2020, 1, 1, 12, 0, v) for v in ties_i]
         g1 = [2, 1, 1, 3, 3, 3, 1, 2, 2]
         g2 = [1, 1, 2, 2, 2, 3, 3, 3, 3]
         g3 = [5] * 9
-        return [[("g", "int", g1), ("x", k, a)], [("g", "int", g2), ("x", k, b)], [("g", "int", g3), ("x", k, a)]]
+        return [[("g", "int", g1), ("x", k, a)], [("g", "int", g2), ("x", k, b)], [("g", "int", g3), ("x", k, a)], [("g", "int", ties_g), ("x", k, ties_v)]]
 
     def run(helper, kw, spec, numba_on):
         di.USE_NUMBA = numba_on
